@@ -23,6 +23,22 @@ type txnScen struct {
 	Init    []txProg
 	Threads [][]txProg
 	Keys    []string
+	// Staged transactions are driven by the main goroutine, one after the other, before the threads start
+	// (API-level prefix, never branched on): Begin and the operations; a staged transaction with Defer set
+	// gets its Commit/Discard from a goroutine of its own that starts together with Threads, the others
+	// finish at once. This puts the explorer's budget where the races are: concurrent commits of
+	// transactions whose snapshots and read sets were fixed in a chosen order.
+	Staged []stagedTxn
+	// FreezeEpilogue: the final read, Close and reopen run under the default schedule only (they are
+	// C15's subject; C05-C07 spend their budget on the concurrent part)
+	FreezeEpilogue bool
+	// NoClose: stop after the final read (Close and reopen are C15's subject and cost a table build per execution)
+	NoClose bool
+}
+
+type stagedTxn struct {
+	Prog  txProg
+	Defer bool
 }
 
 func rw(end string, ops ...string) txProg {
@@ -35,6 +51,8 @@ func rw(end string, ops ...string) txProg {
 			p.Ops = append(p.Ops, txOp{Op: "S", K: o[1:]})
 		case 'd':
 			p.Ops = append(p.Ops, txOp{Op: "D", K: o[1:]})
+		case 'Q':
+			p.Ops = append(p.Ops, txOp{Op: "Q"})
 		}
 	}
 	return p
@@ -75,6 +93,10 @@ func numberValues(sc *txnScen) {
 	for i := range sc.Init {
 		fix(&sc.Init[i])
 	}
+	sc.Staged = append([]stagedTxn(nil), sc.Staged...)
+	for i := range sc.Staged {
+		fix(&sc.Staged[i].Prog)
+	}
 	th := make([][]txProg, len(sc.Threads))
 	for t := range sc.Threads {
 		th[t] = append([]txProg(nil), sc.Threads[t]...)
@@ -107,8 +129,25 @@ func txnScenario(sc txnScen, obs *txnObs) vsched.Scenario {
 				obs.init.apply(rec.writes())
 			}
 			vsched.WaitQuiescent()
+			var deferred []*liveTxn
+			for i, st := range sc.Staged {
+				l := startTxn(db, h, fmt.Sprintf("S%d", i+1), st.Prog, nil)
+				if st.Defer {
+					deferred = append(deferred, l)
+				} else {
+					l.finish()
+				}
+			}
 			vsched.Thaw()
 			var wg vsync.WaitGroup
+			for _, l := range deferred {
+				l := l
+				wg.Add(1)
+				vsched.GoUser(l.rec.Name+"-end", func() {
+					defer wg.Done()
+					l.finish()
+				})
+			}
 			for ti, progs := range sc.Threads {
 				ti, progs := ti, progs
 				wg.Add(1)
@@ -124,6 +163,9 @@ func txnScenario(sc txnScen, obs *txnObs) vsched.Scenario {
 				})
 			}
 			wg.Wait()
+			if sc.FreezeEpilogue {
+				vsched.Freeze()
+			}
 			// final read-only transaction: after everything in real time
 			fin := ro()
 			for _, k := range sc.Keys {
@@ -141,6 +183,10 @@ func txnScenario(sc txnScen, obs *txnObs) vsched.Scenario {
 				for _, t := range tabs {
 					obs.rotations += t
 				}
+			}
+			if sc.NoClose {
+				obs.closeOK = true
+				return
 			}
 			db.Close()
 			obs.closeOK = true
@@ -387,7 +433,6 @@ func apiScenario(sc apiScen, obs *txnObs) vsched.Scenario {
 			}
 			fin := ro("rx", "ry")
 			runTxn(db, h, "final", fin, nil)
-			db.Close()
 			obs.closeOK = true
 		}
 		check := func(res vsched.Result) error { return StdCheck(res) }
